@@ -39,7 +39,7 @@ def run(chk):
     recs = core.run_driver('align', tier=chk.tier, seed=chk.seed, args=dict(prop='C16'))
     chk.validate('blind', 'Trace_Align', 'Trace_Align.cfg', recs, driver='align', jobs=14)
     goods = [x for x in recs if x['kind'] == 'consist' and x['exc'] == '' and x['aligner'] == 'greedy']
-    good = goods[0]
+    good = goods[0] if goods else None
 
     def corrupt(x):
         x['mapping'][0][2], x['mapping'][1][2] = x['mapping'][1][2], x['mapping'][0][2]
